@@ -103,5 +103,8 @@ FIXED.append("fixed: property=C18 6f54052 patch.Replace(AuditEvent.action, 'c') 
 FIXED.append("fixed: property=C02 9402bc5 with contained resources (or Bundle entries) of different types, `ActivityDefinition.contained.basedOn` failed with 'invalid field: based_on_value not a field on *Patient' instead of yielding the Observation's basedOn elements; found by the thorough tier (variant 4 carries two contained types), the quick tier now carries them in variant 1")
 FIXED.append("fixed: property=C15 4b2196b system.Time.ToProtoTime() produced a negative value_us (@T08:30:05.250 -> -55794750000, because fhir.Time takes UnixMicro() % day of a year-0 time), which fhirconv.TimeToString renders as '-15:-29:-54.-750'; found by the render-agreement oracle on produced elements (pointed out by the C15 sub-agent)")
 FIXED.append("fixed: property=C01 7f98637 (1 '').abs() panicked (index out of range: a Quantity with the empty unit prints as its number alone); 1e400.sqrt() and 1e400.log(2) panicked (Cannot create a Decimal from +Inf); found after extreme values were added to the C01 pool (pointed out by the C01 sub-agents)")
+k('C13', 'result-string-round-trip|Quantity|*|empty|unit=1', "same recorded defect as string-round-trip|Quantity|qty.1: every conversion result with the default unit '1' (true.toQuantity(), 5.toQuantity(), '5'.toQuantity()) prints as '5 1', which toQuantity() does not parse back; seen through the law y.toString().toT() = y applied to conversion results", {'src': "5.toQuantity().toString().toQuantity() = 5.toQuantity()", 'got': '{}', 'want': 'true'})
+k('C13', 'result-string-round-trip|Quantity|str.g.num*|empty|unit=', "toQuantity() of a number string with trailing white space ('0 ') yields a Quantity with the empty unit instead of '1'; it prints as the bare number, which reads back with unit '1' and is not comparable with it (lenient-parsing family)", {'src': "'0 '.toQuantity().toString().toQuantity() = '0 '.toQuantity()", 'got': '{}', 'want': 'true'})
+k('C13', "result-string-round-trip|Quantity|str.g.quantity|empty|unit= 'mg", "toQuantity() of a quantity string with more than one space before a quoted unit (5, two spaces, 'mg') keeps the extra space and the opening quote in the unit; the result does not read back from its own string. Trimming the white space is what TestToQuantity forbids ('100           km' must keep its spaces), so recorded, not repaired", {'src': "a string holding 5, two spaces and the quoted unit mg, then .toQuantity()", 'got': "unit is [space][quote]mg", 'want': "unit mg"})
 if __name__ == '__main__':
     write()
